@@ -348,11 +348,45 @@ def failedAttempt (s : State) (st : RunSt) (h : String) (f : Option Fault) (e : 
 def finish (s : State) (st : RunSt) (h : String) (f : Option Fault) (commitFault dry : Bool) (log : Log) : Outcome :=
   if dry then rolledBack s st h f { log := some log } else commitOrFail s st h f commitFault log
 
+/-- The context was cancelled by the fault at an earlier call. -/
+def alreadyCanceled (f : Option Fault) (n : Nat) : Bool :=
+  match f with
+  | some x => decide (x.kind = .cancel ∧ x.at_ < n)
+  | none => false
+
+/-- `recordedOutcome`: after an attempt carrying an idempotency key failed for a
+    reason of its own, the key is looked up once more — on the PARENT (root) handle,
+    i.e. in the committed tables — as store call number `n`: a log found answers the
+    request (hit, or the input-mismatch error); not found, or a failing lookup, keeps
+    the attempt's own error `o`. -/
+def recordedOutcome (op : Op) (f : Option Fault) (s : State) (n : Nat) (o : Outcome) : Outcome :=
+  if op.ik = "" then o else
+  if alreadyCanceled f n = true then { o with trace := o.trace ++ [traceEntry "root" "ReadLogWithIdempotencyKey" "canceled"] }
+  else match fires f n with
+  | some kind =>
+    { o with trace := o.trace ++ [traceEntry "root" "ReadLogWithIdempotencyKey" kind.err.toString] }
+  | none =>
+    match readLogWithIK op.ik s.db with
+    | none => { o with trace := o.trace ++ [traceEntry "root" "ReadLogWithIdempotencyKey" "not-found"] }
+    | some log =>
+      if log.ihash ≠ "" ∧ log.ihash ≠ op.ihash then
+        { o with resp := { err := some .invalidIdempotencyInput },
+                 trace := o.trace ++ [traceEntry "root" "ReadLogWithIdempotencyKey" ""] }
+      else
+        { o with resp := { hit := true, log := some log },
+                 trace := o.trace ++ [traceEntry "root" "ReadLogWithIdempotencyKey" ""] }
+
+/-- A failed attempt followed by `recordedOutcome` (a panic skips both the Rollback and the lookup). -/
+def failedThenRecorded (op : Op) (s : State) (st : RunSt) (h : String) (f : Option Fault) (e : Err) : Outcome :=
+  if e = .panic then failedAttempt s st h f e
+  else recordedOutcome op f s (st.n + 2) (failedAttempt s st h f e)
+
 /-- `forgeLogRetry` → `runTx` on a fresh transaction `t2` (the injected fault is
     one-shot, so the loop body runs once; an armed COMMIT failure hits this attempt's
     `Commit` when the first attempt never reached its own; the `ErrIdempotencyKeyConflict` branch of
     the loop needs a concurrent writer and is out of scope of sequential histories:
-    the conflict is reported as the error it is). -/
+    the conflict is reported as the error it is). Any failure of `runTx` other than a
+    deadlock ends in `recordedOutcome`. -/
 def retry (strict : Bool) (op : Op) (f : Option Fault) (commitFault : Bool) (s : State) (st : RunSt) : Outcome :=
   match fires f (st.n + 1) with
   | some kind =>
@@ -361,8 +395,10 @@ def retry (strict : Bool) (op : Op) (f : Option Fault) (commitFault : Bool) (s :
   | none =>
     match run op.now "t2" f (runLog strict op.kind op.ik op.ihash op.sv 2)
             { db := s.db, seq := st.seq, n := st.n + 1, trace := st.trace ++ ["root BeginTX"] } with
-    | (.error e, st1) => failedAttempt s st1 "t2" f e
-    | (.ok log, st1) => finish s st1 "t2" f commitFault op.dry log
+    | (.error e, st1) => failedThenRecorded op s st1 "t2" f e
+    | (.ok log, st1) =>
+      let o := finish s st1 "t2" f commitFault op.dry log
+      if o.resp.err.isSome then recordedOutcome op f s (st1.n + 2) o else o
 
 def forgeLog (strict : Bool) (op : Op) (f : Option Fault) (commitFault : Bool) (s : State) : Outcome :=
   match fires f 1 with
@@ -378,7 +414,7 @@ def forgeLog (strict : Bool) (op : Op) (f : Option Fault) (commitFault : Bool) (
         if e = .store .deadlock ∨ e = .store .ikConflict then
           retry strict op f commitFault s
             { st2 with n := st2.n + 1, trace := st2.trace ++ [rollbackEntry "t1" f (st2.n + 1)] }
-        else failedAttempt s st2 "t1" f e
+        else failedThenRecorded op s st2 "t1" f e
       | (.ok log, st2) => finish s st2 "t1" f commitFault op.dry log
 
 /-- One write operation without faults. -/
